@@ -41,7 +41,46 @@ def expr_cases(seed, n):
         if rnd.random() < 0.25:
             q["where"] = g.bool_expr(scope, None, 2)
         cases.append({"db": {"t1": rows}, "q": q, "sql": G.sql_query(q), "pk": False})
-    return cases
+    return cases + consumer_sweep(rnd)
+
+
+def consumer_sweep(rnd):
+    """Every boolean kernel that can yield NULL, under every consumer of a boolean: the consumers of the executor
+    read the raw bit of a NULL slot (filters, OR / AND fix-ups, CASE), so the kernels must leave false there."""
+    A = lambda c, ty=G.INT: ("col", "x1", c, ty)
+    Cs = ("col", "x1", "c", G.STR)
+    K = lambda v: ("ci", v)
+    B = lambda op, l, r: ("bin", op, l, r, G.BOOL)
+    kernels = [B("like", Cs, ("cs", "%")), B("like", Cs, ("cs", "")), B("like", Cs, ("cs", "a%")), B("like", Cs, ("cs", "_%")),
+               ("nlike", B("like", Cs, ("cs", "b%")), G.BOOL),
+               B("=", A("a"), K(1)), B("<>", A("a"), K(1)), B("<", A("a"), A("b")), B(">=", A("b"), K(0)),
+               B("=", Cs, ("cs", "")), B("<", Cs, ("cs", "b")),
+               ("inl", A("a"), [0, 1, 7], False, G.BOOL), ("inl", A("a"), [0, 1, 7], True, G.BOOL),
+               ("between", A("a"), K(0), K(2), False, G.BOOL), ("between", A("b"), A("a"), K(3), True, G.BOOL),
+               B("=", ("bin", "+", A("a"), A("b"), G.INT), K(3)), B(">", ("bin", "/", A("a"), A("b"), G.INT), K(0)),
+               B("=", ("case", B(">", A("a"), K(1)), A("b"), A("a"), G.INT), K(1))]
+    T = B(">", A("b"), K(100))        # false or NULL
+    U = B("<", A("b"), K(100))        # true or NULL
+    out = []
+    idc = (("col", "x1", "id", G.INT), "c1")
+    base = dict(frm=("t", "t1", "x1"), grp=[], hav=None, agg=False, dist=False, ord=[], lim=-1, off=0)
+    for k in kernels:
+        rows = []
+        dens = [rnd.choice([0.0, 0.3, 0.6]) for _ in range(3)]
+        pick = lambda d, pool: None if rnd.random() < d else rnd.choice(pool)
+        for r in range(rnd.choice([5, 65, 130])):
+            rows.append([r, pick(dens[0] + 0.2, [0, 1, 2, 3, -1, 7]), pick(dens[1] + 0.2, [0, 1, 2, 3, -2]),
+                         pick(dens[2] + 0.2, ["", "a", "b", "ab", "ba"])])
+        sel = [idc, (k, "c2"), (("bin", "or", k, T, G.BOOL), "c3"), (("bin", "and", k, U, G.BOOL), "c4"),
+               (("not", k, G.BOOL), "c5"), (("case", k, K(1), K(0), G.INT), "c6"), (("isnull", k, False, G.BOOL), "c7")]
+        qs = [dict(base, sel=sel, where=None),
+              dict(base, sel=[idc, (A("a"), "c2")], where=k),
+              dict(base, sel=[idc, (A("a"), "c2")], where=("bin", "or", k, T, G.BOOL)),
+              dict(base, sel=[idc, (A("a"), "c2")], where=("bin", "and", ("bin", "or", T, k, G.BOOL), U, G.BOOL)),
+              dict(base, sel=[(("agg", "count", k, G.INT), "c1"), (("agg", "count*"), "c2")], where=None, agg=True)]
+        for q in qs:
+            out.append({"db": {"t1": rows}, "q": q, "sql": G.sql_query(q), "pk": False})
+    return out
 
 
 def run_expr_cases(cases, tag):
